@@ -1114,7 +1114,7 @@ func run(c *core.Ctx) {
 		c.Note("model selected by C12_MODEL=%s", modelMode)
 	}
 	corpus(c)
-	n := c.N(4000, 24000)
+	n := c.N(8000, 30000)
 	var vm []string
 	for i := 0; i < n; i++ {
 		seed := c.Seed*1000003 + int64(i)
